@@ -221,11 +221,12 @@ impl Tm {
         }
     }
 
-    /// maximal number of distinct free names over all subterms (bodies counted open).
+    /// maximal number of distinct names needed by any subterm: its free names (bodies counted open) plus its own binders.
     pub fn max_names(&self) -> usize {
         let mut v = vec![];
         self.subterms(&mut v);
-        v.iter().map(|x| x.fv().len()).max().unwrap_or(0)
+        // a node with binders needs that many additional fresh names when it is opened
+        v.iter().map(|x| x.fv().len() + x.kids.iter().map(|(b, _)| b.len()).sum::<usize>()).max().unwrap_or(0)
     }
 }
 
